@@ -91,6 +91,12 @@ def main():
                 cmd = f"go test {tags}-vet=off -count=1 -run '{run}' . 2>&1 | tail -12"
                 rc1, o1 = sh(cmd, cwd=os.path.join(wt, sub))
                 fail_with = "FAIL" in o1 or "panic:" in o1
+                if not fail_with:
+                    # demonstrations of data races only fail under the race detector
+                    cmd = f"go test -race {tags}-vet=off -count=1 -run '{run}' . 2>&1 | tail -12"
+                    rc1, o1 = sh(cmd, cwd=os.path.join(wt, sub))
+                    fail_with = "FAIL" in o1 or "panic:" in o1
+                    out["demo_run_with_race_detector"] = True
                 # (git stash is shared between worktrees of one repository: never use it here)
                 os.remove(dst)
                 sh(["git", "-C", wt, "checkout", "--", "."])
